@@ -95,6 +95,7 @@ def register(gen, T):
                    "  | plain (k : LitKind)          -- Literal::k(v) with the same value\n"
                    "  | widen (k : LitKind)          -- Literal::k(v as u64 / u64::from(v))\n"
                    "  | negMinus (k : LitKind)       -- Minus(Literal::k(-v as u64)), `-v` computed in the constant's own width\n"
+                   "  | negMinusAbs (k : LitKind)    -- Minus(Literal::k(u64::from(v.unsigned_abs()))): total\n"
                    "  | panics\n"
                    "  | enumLookup\n"
                    "  deriving DecidableEq, Repr, Inhabited\n\n")
@@ -118,7 +119,7 @@ def register(gen, T):
             else:
                 m = re.fullmatch(r'ast::Literal::([A-Za-z0-9]+)\((.*)\)', r)
                 mneg = re.search(r'return Ok\(ast::Expression::UnaryOperation\( ast::UnaryOp::Minus, Box::new\(Located::none\('
-                                 r'ast::Expression::Literal\( ast::Literal::([A-Za-z0-9]+)\(-v as u64\), \)\)\), \)\);', r)
+                                 r'ast::Expression::Literal\( ast::Literal::([A-Za-z0-9]+)\((-v as u64|u64::from\(v\.unsigned_abs\(\)\))\), \)\)\), \)\);', r)
                 if m and m.group(1) in lits:
                     inner = m.group(2)
                     if inner == "v":
@@ -128,7 +129,7 @@ def register(gen, T):
                     else:
                         raise ExtractError(f"generate_literal: literal payload {inner!r}")
                 elif mneg and mneg.group(1) in lits:
-                    arm = f".negMinus .{mneg.group(1)}"
+                    arm = (".negMinus" if mneg.group(2) == "-v as u64" else ".negMinusAbs") + f" .{mneg.group(1)}"
                 else:
                     raise ExtractError(f"generate_literal: result {r[:80]!r} unsupported")
                 gk = None
@@ -178,6 +179,26 @@ def register(gen, T):
             out.append(f"def {k} : Bool := {'true' if v else 'false'}\n")
         out.append("\n")
 
+        # ---------------------------------------------------------------- generate_scope_block (label handling)
+        sb = normws(fn_body(gen_rs, "generate_scope_block"))
+        scope_ok = sb == (
+            "let mut statements = Vec::new(); for statement in &block.0 { let statement = generate_statement(statement, context)?; "
+            "if let Some(ast::Statement { kind: ast::StatementKind::CaseLabel(_, current) | ast::StatementKind::DefaultLabel(current), .. }) "
+            "= statements.last_mut() && let ast::Statement { kind: ast::StatementKind::Empty, .. } = **current "
+            "{ **current = statement; continue; } statements.push(statement); } Ok(statements)")
+        out.append("/-- generate_scope_block: a statement fills the still-empty slot of a label that is the last statement so far\n"
+                   "(and nothing else happens), otherwise it is pushed — the loop `Model.GenHlsl.genStmtsAcc` / `pushStmt` mirrors -/\n"
+                   f"def scopeBlockAsModelled : Bool := {'true' if scope_ok else 'false'}\n")
+        gs = normws(fn_body(gen_rs, "generate_statement"))
+        labels_ok = bool(re.search(
+            r"ir::StatementKind::CaseLabel\(value\) => \{ let expr = generate_literal\(value, context\)\?; let empty_statement = Box::new\(ast::Statement \{ "
+            r"kind: ast::StatementKind::Empty, location: SourceLocation::UNKNOWN, attributes: Vec::new\(\), \}\); "
+            r"ast::StatementKind::CaseLabel\(Located::none\(expr\), empty_statement\) \}", gs)) and bool(re.search(
+            r"ir::StatementKind::DefaultLabel => \{ let empty_statement = Box::new\(ast::Statement \{ kind: ast::StatementKind::Empty, "
+            r"location: SourceLocation::UNKNOWN, attributes: Vec::new\(\), \}\); ast::StatementKind::DefaultLabel\(empty_statement\) \}", gs))
+        out.append("/-- generate_statement: a label is emitted with an empty statement in its slot; the constant goes through generate_literal -/\n"
+                   f"def labelsEmittedEmpty : Bool := {'true' if labels_ok else 'false'}\n\n")
+
         # ---------------------------------------------------------------- generate_scalar_type
         sbody = fn_body(gen_rs, "generate_scalar_type")
         _, sarms, _ = first_match(sbody, r'^ty$')
@@ -193,3 +214,64 @@ def register(gen, T):
                    T.lean_list(f"({lean_str(a)}, {'some ' + lean_str(b) if b else 'none'})" for a, b in names) + "\n")
         out.append(T.footer("HlslGenTables"))
         return "".join(out)
+
+    @gen("HlslIntrinsicTables")
+    def hlsl_intrinsic_tables():
+        from rustsrc import ExtractError, fn_body, first_match, match_arms, enum_variants, lean_str
+        gen_rs = T.src("hlsl/src/ast_generate.rs")
+        intr_rs = T.src("ir/src/intrinsics.rs")
+        out = [T.header("HlslIntrinsicTables", ["hlsl/src/ast_generate.rs", "ir/src/intrinsics.rs"])]
+        vs = enum_variants(intr_rs, "Intrinsic")
+        if any(payload for _, payload in vs):
+            raise ExtractError("Intrinsic has a variant with a payload")
+        names = [v for v, _ in vs]
+        out.append("inductive Intrinsic where\n" + "".join(f"  | {v}\n" for v in names) + "  deriving DecidableEq, Repr, Inhabited\n\n")
+        out.append("def Intrinsic.all : List Intrinsic := " + T.lean_list("." + v for v in names) + "\n\n")
+        out.append("def Intrinsic.name : Intrinsic → String\n" + "".join(f"  | .{v} => {lean_str(v)}\n" for v in names) + "\n")
+        out.append("def Intrinsic.ofName? (s : String) : Option Intrinsic :=\n  Intrinsic.all.find? (fun k => k.name == s)\n\n")
+        out.append("/-- `Form` of generate_intrinsic_function -/\ninductive IForm where\n  | invoke (name : String)\n  | method (name : String)\n"
+                   "  | addressMethod (method name : String)\n  | unexpected\n  deriving DecidableEq, Repr, Inhabited\n\n")
+        body = fn_body(gen_rs, "generate_intrinsic_function")
+        _, arms_text, end = first_match(body, r'^&?\s*intrinsic$')
+        seen = {}
+        for pats, guard, result in match_arms(arms_text):
+            if guard is not None:
+                raise ExtractError("generate_intrinsic_function: guard unsupported")
+            r = result.strip()
+            if r.startswith("{") and r.endswith("}"):
+                r = r[1:-1].strip()
+            m = re.fullmatch(r'Form::Invoke\("([A-Za-z0-9_]+)"\)', r)
+            m2 = re.fullmatch(r'Form::Method\("([A-Za-z0-9_]+)"\)', r)
+            m3 = re.fullmatch(r'Form::AddressMethod\("([A-Za-z0-9_]+)", "([A-Za-z0-9_:]+)"\)', r)
+            if m:
+                val = f".invoke {lean_str(m.group(1))}"
+            elif m2:
+                val = f".method {lean_str(m2.group(1))}"
+            elif m3:
+                val = f".addressMethod {lean_str(m3.group(1))} {lean_str(m3.group(2))}"
+            elif r == "Form::Unexpected":
+                val = ".unexpected"
+            else:
+                raise ExtractError(f"generate_intrinsic_function: arm result {r!r} unsupported")
+            for p in pats:
+                if p not in names:
+                    raise ExtractError(f"generate_intrinsic_function: pattern {p!r} is not an Intrinsic")
+                seen.setdefault(p, val)
+        missing = [n for n in names if n not in seen]
+        if missing:
+            raise ExtractError(f"generate_intrinsic_function: no arm for {missing[:5]}")
+        out.append("def intrinsicForm : Intrinsic → IForm\n" + "".join(f"  | .{n} => {seen[n]}\n" for n in names) + "\n")
+        # Form::Invoke(s) => Call(Identifier(s), [], generate_invocation_args(exprs))
+        from rustsrc import normws
+        _, arms2, _ = first_match(body, r'^form$', end)
+        inv_ok = False
+        for pats, guard, result in match_arms(arms2):
+            if pats == ["Form::Invoke(s)"]:
+                r = normws(result)
+                inv_ok = bool(re.search(r'let object = Box::new\(Located::none\(ast::Expression::Identifier\( ast::ScopedIdentifier::trivial\(s\), \)\)\);', r)) and \
+                    bool(re.search(r'let type_args = Vec::new\(\); let args = generate_invocation_args\(exprs, context\)\?; ast::Expression::Call\(object, type_args, args\)', r))
+        out.append("/-- Form::Invoke(s) builds Call(Identifier(s), no type arguments, the arguments in order) -/\n"
+                   f"def invokeFormAsModelled : Bool := {'true' if inv_ok else 'false'}\n")
+        out.append(T.footer("HlslIntrinsicTables"))
+        return "".join(out)
+
